@@ -118,6 +118,8 @@ def scenario(fault_at, fault_toks, ops, mc=MC, ma=MA, extra_world=None, second=N
             optoks += [DUMP, op["a"], op["n"]]
         elif op["k"] == "g":
             optoks += [GENAPI]
+        elif op["k"] == "retry":
+            optoks += [RETRY, op["n"]]
     return w, wt, optoks
 
 
@@ -192,6 +194,24 @@ def gen_cases(ck):
                         w.write(op["a"], pattern(op["n"], op["seed"]))
             exp.append(("ok", show_data(w.read(follow["a"], follow["n"]))))
             add("%s/%s" % (op["k"], name), w, wt, optoks, exp)
+    # the CONFIGURED retry count (set_retry_count 0, 1, 2, 3, 5 - 0 is a legal value) x 0..7 pending acknowledges in
+    # the transaction of a read / a write: never a panic, never more receives than configured, Ok (with true data)
+    # exactly when the final acknowledge is among the configured number of receives, and the handle recovers
+    for rc in (0, 1, 2, 3, 5):
+        for p in range(0, 8):
+            for op in (dict(k="r", a=DATA + 7, n=20), dict(k="w", a=DATA + 40, n=24, seed=5)):
+                follow = dict(k="r", a=DATA + 32, n=48)
+                ftoks = [5, -1, p + 1] + [0, 1] * p + [1, 0]
+                w, wt, optoks = scenario(6, ftoks, [dict(k="retry", n=rc), op, dict(k="retry", n=3), follow])
+                good = p + 1 <= rc
+                exp = [("ok", None), ("ok", None)]
+                if op["k"] == "r":
+                    exp.append(("ok", show_data(w.read(op["a"], op["n"]))) if good else ("err",))
+                else:
+                    exp.append(("ok", None) if good else ("err",))
+                    w.write(op["a"], pattern(op["n"], op["seed"]))      # the device applied the write on reception
+                exp += [("ok", None), ("any",)]
+                add("retry-count-%d/pending-x%d/%s" % (rc, p, op["k"]), w, wt, optoks, exp, retry=max(rc, 3))
     # faults at every transaction of open (6) and of a 3-chunk read and a 3-chunk write
     kinds = [("recv-err", [5, -1, 1, 3, 0]), ("timeout", [5, -1, 0]), ("status", [5, -1, 1, 1, 1, 1, 4, 0x8006]),
              ("short", [5, -1, 1, 1, 1, 2, 13]), ("wrong-id", [5, -1, 1, 1, 1, 1, 10, 0x7777]),
@@ -322,6 +342,9 @@ def main():
         if r.get("kind") != "case":
             print(json.dumps(r, indent=1)[:4000])
             sys.exit(0)
+        if r.get("ckind") in ("enum", "chan"):      # USB layer cases (tools/usbenum.py)
+            import usbenum
+            usbenum.replay(ck, r)
         from vplib import Case
         c = Case("ctl", r["mtoks"].split())
         impl = ck.run_impl(binary, [c.line], big_stack=True)
@@ -347,4 +370,8 @@ def main():
         k = c.meta["name"].split("/")[-1].split("-")[0].split(" ")[0]
         names[k] = names.get(k, 0) + 1
     ck.dist["fault_kinds"] = names
+    # USB layer (device/src/u3v/device_builder.rs, device_info.rs): the real cameleon-device crate
+    # over a scripted fake libusb (rust/h_usb) vs model/UsbEnum.v, see tools/usbenum.py
+    import usbenum
+    usbenum.run_enum(ck)
     ck.finish()
